@@ -61,10 +61,19 @@ class SchedRec:
                 rec.log.append("sees%s>%s%s" % (rec.ids[id(rec.stack[-1])], rec.ids[id(r)], st))
             return r
         self._ao = model.System.addObject
+        self._rp = model.Documentable.reparent
+        self.module_moved = False
+
+        def reparent(obj, new_parent, new_name):
+            if isinstance(obj, model.Module):
+                rec.module_moved = True
+            return rec._rp(obj, new_parent, new_name)
+        model.Documentable.reparent = reparent
 
         def addObject(system, obj):
             if not hasattr(obj, "_verif_orig"):
-                obj._verif_orig = obj.fullName()
+                par = obj.parent
+                obj._verif_orig = obj.name if par is None else getattr(par, "_verif_orig", par.fullName()) + "." + obj.name
             return rec._ao(system, obj)
         model.System.processModule = processModule
         model.System.getProcessedModule = getProcessedModule
@@ -76,6 +85,7 @@ class SchedRec:
         model.System.processModule = self._pm
         model.System.getProcessedModule = self._gp
         model.System.addObject = self._ao
+        model.Documentable.reparent = self._rp
 
 
 def build(units: List[Unit], order: Optional[List[int]], rec: Optional[SchedRec] = None):
@@ -142,7 +152,8 @@ def canon(system, hierarchy_only: bool) -> Dict[str, Any]:
         if isinstance(o, model.Class):
             e["bases"] = [name(b) if b is not None else None for b in o.baseobjects]
             try:
-                e["mro"] = [name(c) if isinstance(c, model.Documentable) else str(c) for c in o.mro(True)]
+                # for cyclic projects only the documented hierarchy has to agree: unresolved (string) bases are left out
+                e["mro"] = [name(c) if isinstance(c, model.Documentable) else str(c) for c in o.mro(not hierarchy_only)]
             except Exception as ex:
                 e["mro"] = "ERR:" + type(ex).__name__
         if not hierarchy_only:
@@ -195,7 +206,12 @@ def star_in_cycle(units: List[Unit], imports: Dict[int, List[int]]) -> bool:
     return False
 
 
-def diff_sig(a: Dict[str, Any], b: Dict[str, Any]) -> Tuple[str, str]:
+def moved_origins(system) -> set:
+    return {origin(o) for o in system.allobjects.values()
+            if getattr(o, "_verif_orig", None) is not None and o._verif_orig != o.fullName() and " " not in o.name}
+
+
+def diff_sig(a: Dict[str, Any], b: Dict[str, Any], moved: set = frozenset()) -> Tuple[str, str]:
     ka, kb = set(a), set(b)
     if ka != kb:
         d = sorted(ka ^ kb)
@@ -204,8 +220,45 @@ def diff_sig(a: Dict[str, Any], b: Dict[str, Any]) -> Tuple[str, str]:
         if a[k] != b[k]:
             for f in ("bases", "mro", "kind", "doc", "parent", "cls"):
                 if a[k].get(f) != b[k].get(f):
+                    if f == "bases" and len(a[k][f]) == len(b[k][f]):
+                        # a base that is unresolved in one order and a moved (re-exported) object in the other
+                        pairs = [(x, y) for x, y in zip(a[k][f], b[k][f]) if x != y]
+                        if pairs and all((x is None) != (y is None) and ((x or y) in moved) for x, y in pairs):
+                            return "moved-base-unresolved", f"{k}: bases {a[k][f]!r} vs {b[k][f]!r}"
                     return f + "-differs", f"{k}: {f} {a[k].get(f)!r} vs {b[k].get(f)!r}"
     return "?", "?"
+
+
+def submodule_scenario(rng) -> List[Unit]:
+    """a package that publishes a sub-module of ANOTHER package (perhaps under another name); the sub-module
+    resolves its bases through relative or absolute imports; roots / siblings in any order"""
+    rel = rng.random() < 0.6
+    alias = rng.choice(["ui", "widgets", "w2"])
+    roots = rng.random() < 0.5
+    core, api = ("corelib", "api") if roots else ("top.corelib", "top.api")
+    if rel:
+        base_imp = rng.choice(["from .base import Widget", "from . import base", "from %s.base import Widget" % core,
+                               "import %s.base as base" % core])
+    else:
+        base_imp = rng.choice(["from %s.base import Widget" % core, "import %s.base as base" % core])
+    bexpr = "Widget" if "import Widget" in base_imp else "base.Widget"
+    widgets = [base_imp, "class Button(%s):" % bexpr, "    pass", "class Label(%s):" % bexpr, "    pass"]
+    imp = "from %s import widgets%s" % (core, "" if alias == "widgets" else " as " + alias)
+    apisrc = [imp, "__all__ = [%r]" % alias]
+    if rng.random() < 0.3:
+        apisrc.insert(1, "class Panel(%s.Button):\n    pass" % alias)
+    units: List[Unit] = []
+    if not roots:
+        units.append(Unit("top", True, "x = 1\n", None))
+    par = None if roots else "top"
+    pk = [Unit(core, True, "y = 1\n", par),
+          Unit(core + ".base", False, "class Widget:\n    def draw(self): pass\n", core),
+          Unit(core + ".widgets", False, "\n".join(widgets) + "\n", core)]
+    ap = [Unit(api, True, "\n".join(apisrc) + "\n", par)]
+    if rng.random() < 0.5:
+        ap.append(Unit(api + ".extra", False, "from %s import %s\nclass X(%s.Label):\n    pass\n" % (api, alias, alias), api))
+    units += (pk + ap) if rng.random() < 0.5 else (ap + pk)
+    return units
 
 
 def run(ctx: Ctx) -> None:
@@ -218,6 +271,9 @@ def run(ctx: Ctx) -> None:
             # the re-export scenarios of C07 (single re-exporter, consumers of definer / re-exporter)
             units, _meta = reexport_project(ctx.rng)
             ctx.count("projects:reexport-scenario")
+        elif i % 8 == 5:
+            units = submodule_scenario(ctx.rng)
+            ctx.count("projects:submodule-reexport-scenario")
         else:
             g = Gen(ctx.rng, Knobs(max_modules=5 if ctx.quick else 7, reexport=0.3, star=0.25, single_reexporter=True))
             units = g.project()
@@ -258,10 +314,15 @@ def run(ctx: Ctx) -> None:
                      {"modules": list(src), "order": od, "log": rec.log[:30]} if nontriv and len(ctx.samples) < 2 else None)
             ctx.count("orders")
             ctx.count("cyclic" if cyc else "acyclic")
-            reqs.append("schedule run %s %s" % (",".join(map(str, od)), modtoks))
-            states = "".join({"UNPROCESSED": "U", "PROCESSING": "G", "PROCESSED": "D"}[m.state.name] for m in mods)
-            impls.append("ok " + " ".join(rec.log) + " | " + states + " | " + (",".join(str(rec.ids[id(m)]) for m in s.unprocessed_modules) or "-"))
-            pay.append({"units": src, "order": od})
+            if rec.module_moved or rec0.module_moved:
+                # a moved module changes which module a dotted name denotes: the import lists read off the
+                # reference run do not apply to this order (the model's assumption), so only the oracle speaks
+                ctx.count("model-skipped:module-moved")
+            else:
+                reqs.append("schedule run %s %s" % (",".join(map(str, od)), modtoks))
+                states = "".join({"UNPROCESSED": "U", "PROCESSING": "G", "PROCESSED": "D"}[m.state.name] for m in mods)
+                impls.append("ok " + " ".join(rec.log) + " | " + states + " | " + (",".join(str(rec.ids[id(m)]) for m in s.unprocessed_modules) or "-"))
+                pay.append({"units": src, "order": od})
             # direct oracle: scheduler facts
             if s.unprocessed_modules:
                 ctx.fail("not-drained", {"units": src, "order": od}, "unprocessed_modules not empty after process()")
@@ -273,11 +334,16 @@ def run(ctx: Ctx) -> None:
                 ctx.count("oracle-skipped:star-import-inside-cycle")
                 continue
             c = canon(s, hierarchy_only=cyc)
+            mv = moved_origins(s) if cyc else {o.fullName() for o in s.allobjects.values()
+                                               if getattr(o, "_verif_orig", o.fullName()) != o.fullName() and " " not in o.name}
             if ref is None:
-                ref = (od, c)
+                ref = (od, c, mv)
             elif c != ref[1]:
-                sig, what = diff_sig(ref[1], c)
+                sig, what = diff_sig(ref[1], c, mv | ref[2])
                 tag = "cyclic" if cyc else ("reexport" if reexp else "plain")
+                if sig == "moved-base-unresolved":
+                    tag = "reexport"
+                    sig = "bases-differs"
                 ctx.fail("order-dependent:%s:%s" % (tag, sig), {"units": src, "order": od, "reference_order": ref[0]},
                          f"orders {ref[0]} and {od}: {what}")
     if ctx.model_ok and reqs:
